@@ -198,14 +198,27 @@ func (act *activation) call(a *alt, ins ssa.Instruction, c *ssa.CallCommon, defe
 
 	if !inline {
 		pure := fn != nil && isPureExternal(key) || c.IsInvoke() && isPureExternal(strings.TrimPrefix(key, "iface:"))
+		// a pointer to a tracked local handed to an opaque callee is shown as a
+		// reference to the value it holds at this moment (e.g. Marshal(&x))
+		targs := args
+		for i, x := range args {
+			if cid, path, ok := e.addrRoot(x); ok && len(path) == 0 {
+				if cv, ok := a.cells[cid]; ok && !T.Opaque(cv.val) {
+					if &targs[0] == &args[0] {
+						targs = append([]term.ID(nil), args...)
+					}
+					targs[i] = T.Mk("ref", cv.val)
+				}
+			}
+		}
 		var ct term.ID
 		if pure {
-			ct = T.Mk("call:"+key, args...)
+			ct = T.Mk("call:"+key, targs...)
 		} else {
-			ct = T.MkSite("call:"+key, site, args...)
+			ct = T.MkSite("call:"+key, site, targs...)
 		}
 		if act.record {
-			act.events = append(act.events, &Event{Key: key, Site: site, Kind: "call", Instr: ins, Fn: act.fn, Args: args, Call: ct, Atoms: a.atoms, Stack: append([]string(nil), e.stackNames...)})
+			act.events = append(act.events, &Event{Key: key, Site: site, Kind: "call", Instr: ins, Fn: act.fn, Args: targs, Call: ct, Atoms: a.atoms, Stack: append([]string(nil), e.stackNames...)})
 		}
 		if !pure {
 			a.impure = true
@@ -315,7 +328,7 @@ func (act *activation) call(a *alt, ins ssa.Instruction, c *ssa.CallCommon, defe
 				} else {
 					vals[j] = structured
 				}
-			case !T.Opaque(rt) && !disagree[j]:
+			case !disagree[j] && (!T.Opaque(rt) || e.opaqueWithin(rt, args, fvs, a.cells)):
 				// expressible in the caller's vocabulary (store reads keep their
 				// key): transparent, so facts are anchored on keys, not helper names
 				vals[j] = rt
@@ -356,6 +369,52 @@ func (act *activation) call(a *alt, ins ssa.Instruction, c *ssa.CallCommon, defe
 		out = append(out, n)
 	}
 	return out
+}
+
+// opaqueWithin reports whether every activation-local unknown (phi#, top#,
+// esc#, addr#) mentioned by t is already mentioned by the caller's arguments:
+// then t is expressible in the caller's vocabulary although it is "opaque".
+func (e *Engine) opaqueWithin(t term.ID, args, fvs []term.ID, cells map[int32]cellVal) bool {
+	have := map[term.ID]bool{}
+	seen := map[term.ID]bool{}
+	var collect func(id term.ID, into map[term.ID]bool)
+	collect = func(id term.ID, into map[term.ID]bool) {
+		if seen[id] || !e.T.Opaque(id) {
+			return
+		}
+		seen[id] = true
+		tm := e.T.Get(id)
+		if term.IsOpaqueOp(tm.Op) {
+			into[id] = true
+			// a pointer to a caller's local also makes that local's content expressible
+			if cells != nil && strings.HasPrefix(tm.Op, "addr#") {
+				if n, err := strconv.Atoi(tm.Op[5:]); err == nil {
+					if cv, ok := cells[int32(n)]; ok {
+						collect(cv.val, into)
+					}
+				}
+			}
+		}
+		for _, x := range tm.Args {
+			collect(x, into)
+		}
+	}
+	for _, a := range args {
+		collect(a, have)
+	}
+	for _, a := range fvs {
+		collect(a, have)
+	}
+	need := map[term.ID]bool{}
+	seen = map[term.ID]bool{}
+	cells = nil
+	collect(t, need)
+	for id := range need {
+		if !have[id] {
+			return false
+		}
+	}
+	return true
 }
 
 func (act *activation) builtin(a *alt, ins ssa.Instruction, b *ssa.Builtin, args []term.ID, resultVal ssa.Value, site int32) []*alt {
